@@ -101,7 +101,7 @@ PROPS = {
         "timeout": 1500,
     },
     "C03": {
-        "lean_modules": ["JrpcProofs.Props.C03", "JrpcProofs.Lemmas.Corr", "JrpcProofs.Facts.Corr", "JrpcProofs.Facts.Frames"],
+        "lean_modules": ["JrpcProofs.Props.C03", "JrpcProofs.Lemmas.Corr", "JrpcProofs.Facts.Corr", "JrpcProofs.Facts.Frames", "JrpcProofs.Facts.Writers", "JrpcProofs.Facts.Keepalive", "JrpcProofs.Facts.OneShot"],
         "assumptions": [
             "hooks only delay goroutines; two log entries written by different goroutines around one channel rendezvous may come in either order and are reconciled by the replayer (tau steps are counted in the evidence)",
             "ids of calls that are inside doRequest at the same time differ (id counter; int64 to float64 keys are injective below 2^53 calls)",
